@@ -100,7 +100,7 @@ def harnesses(tier):
 
 ORACLES = [
     {'name': 'small-scope rule files in most_specific mode against a hand-keyed ranking specification (all orders of each rule set)',
-     'script': 'C09.py', 'bound': 'all ordered rule lists of length <= 3 (quick) / 4 (thorough) over a pool of 13 rules with hand-written keys, 6 transactions'},
+     'script': 'C09.py', 'bound': 'all ordered rule lists of length <= 3 (quick) / 4 (thorough) over a pool of 16 rules with hand-written keys, 7 transactions'},
 ]
 TRUSTED_BASE = [
     'pyvc symbolic executor', 'z3 5.1.0 / cvc5 1.0.3',
